@@ -18,8 +18,13 @@ def showOptNat : Option Nat → String
 
 def joinWith (sep : String) (l : List String) : String := sep.intercalate l
 
-def showPoints (pts : List (Bytes × Nat)) : String :=
+def showPointsFull (pts : List (Bytes × Nat)) : String :=
   joinWith "," (pts.map fun (a, p) => hexOrDash a ++ "=" ++ toString p)
+
+/-- long tables are dumped as `#<count>:<sha256 of the full text>` -/
+def showPoints (pts : List (Bytes × Nat)) : String :=
+  if pts.length > 64 then "#" ++ toString pts.length ++ ":" ++ toHex (sha256 (showPointsFull pts).toUTF8.toList)
+  else showPointsFull pts
 
 def showBatch (b : Batch) : String :=
   "{c=" ++ toString b.committee ++ ";rh=" ++ hexOrDash b.receiptHash ++
